@@ -104,7 +104,13 @@ pub fn c01(ctx: &mut Ctx, tier: &str, seed: u64) {
             for (i, back) in m.iter().enumerate() {
                 let (x, y) = if *back { (a.next_back(), b.next_back()) } else { (a.next(), b.next()) };
                 let (x, y) = (x.map(|c| sc_u(&c)), y.map(|c| sc_std(&c)));
-                let rem_ok = sp(a.as_bytes()) == b.as_path();
+                // the remainder through both accessors (raw bytes and `as_path`), and its root / absoluteness
+                let ap = a.as_path::<UnixEncoding>();
+                let rem_ok = sp(a.as_bytes()) == b.as_path()
+                    && sp(ap.as_bytes()) == b.as_path()
+                    && ap.has_root() == b.as_path().has_root()
+                    && a.has_root() == b.as_path().has_root()
+                    && a.is_absolute() == b.as_path().is_absolute();
                 if x != y || !rem_ok {
                     ctx.fail(
                         "interleaving-vs-std",
